@@ -879,6 +879,7 @@ def elem_call(ip, st, el, meth, pos, kws):
     if ip.c is not None and not ip.spec_mode and meth in getattr(ip.c, "at_call", {}) and st.depth == 0:
         env = dict(ip.spec_env(st))
         env["call_args"] = Tup(list(pos))        # the arguments of this call
+        env["call_self"] = el                    # the element whose method is called
         for k, cl in enumerate(ip.c.at_call[meth]):
             ip.emit("call-site", "at-call %s#%d" % (meth, k), st, eval_spec(ip, st, env, cl, old=ip.entry))
     if meth == "__call__":
